@@ -3,6 +3,7 @@ package main
 import (
 	"encoding/json"
 	"fmt"
+	"github.com/Trendyol/go-dcp/config"
 	"os"
 	"strings"
 
@@ -40,6 +41,8 @@ func init() {
 			out = append(out, Instance{Scenario: "pipe", Params: mustJSON(PipeParams{Mode: "script", Layout: "backtoback", Depth: d - 1, Ops: ops, Backend: "file", CrashEnd: true}), Bound: 0, Shards: 4})
 			out = append(out, Instance{Scenario: "pipe", Params: mustJSON(PipeParams{Mode: "script", Layout: "multi", Depth: d, Ops: []string{"deliver0", "deliver1", "ackold", "acknew", "commit"}, Latest: true, CrashEnd: true}), Bound: 0, Shards: 4, Note: "autoReset=latest: a vBucket without a document in a group that has checkpoints restarts from the beginning, not from the current end"})
 			out = append(out, Instance{Scenario: "pipe", Params: mustJSON(PipeParams{Mode: "script", Layout: "multi", Depth: d, Ops: []string{"deliver0", "deliver1", "ackold", "ctxcommit", "commit"}, CrashEnd: true}), Bound: 0, Shards: 4, Note: "Commit() called through the context of an event that is not acknowledged"})
+			out = append(out, Instance{Scenario: "c01_finite_end", Params: mustJSON(struct{}{}), Bound: 0, Note: "finite mode: streams end cleanly while acknowledgements are withheld, then save and exit"})
+			out = append(out, Instance{Scenario: "c01_concsave", Params: mustJSON(struct{}{}), Bound: 2, Shards: 8, Note: "the concurrent per-vBucket writes of one save under every schedule within the bound"})
 			out = append(out, Instance{Scenario: "pipe_tornfile", Params: mustJSON(struct{}{}), Bound: 0, Note: "crash inside os.WriteFile of the file backend: every prefix class of the JSON file"})
 			return out
 		},
@@ -292,6 +295,120 @@ func init() {
 				order = append(order, fmt.Sprintf("%d.%d", d.Vb, d.Seq))
 			}
 			vrt.SetOutcome(strings.Join(order, " "))
+		}}
+	}
+}
+
+// c01_concsave: one save writes the checkpoints of several vBuckets through concurrent requests (one
+// goroutine per dirty vBucket, keys built per request, gocbcore holding key slices by reference until the
+// packet is written). Every schedule within the bound: afterwards the document of each vBucket holds a
+// position that THIS vBucket had settled (never another vBucket's), and a restart resumes at or below it.
+func init() {
+	scenarios["c01_concsave"] = func(raw json.RawMessage) *vrt.Scenario {
+		return &vrt.Scenario{Name: "c01_concsave", NoTimerAlt: true, MaxSteps: 200000, Main: func() {
+			resetGlobals()
+			o := EnvOpts{Vbs: 3, CheckpointType: "manual", WrapMeta: true}
+			c := NewCluster(&o)
+			c.Append(0, marker(1, 5), mut(1, "a1"), mut(2, "a2"), mut(3, "a3"), mut(4, "a4"), mut(5, "a5"))
+			c.Append(1, marker(1, 2), mut(1, "b1"), mut(2, "b2"))
+			c.Append(2, marker(1, 3), mut(1, "c1"), mut(2, "c2"), mut(3, "c3"))
+			e := NewEnv(c, o)
+			e.Stream.Open()
+			c.WaitIdle()
+			settled := map[uint16]uint64{0: 5, 1: 1, 2: 2}
+			for _, d := range e.Cons.Events {
+				if d.Seq == settled[d.Vb] {
+					d.Ctx.Ack()
+					d.Acked = true
+				}
+			}
+			vrt.Window(true)
+			e.Stream.Save()
+			c.WaitIdle()
+			vrt.Window(false)
+			vrt.Quiesce()
+			sig := ""
+			for vb := uint16(0); vb < 3; vb++ {
+				st, ok := e.StoredSeq(vb)
+				if !ok {
+					vrt.Failf("after the save vb%d has no stored checkpoint (settled %d)", vb, settled[vb])
+					continue
+				}
+				if st > settled[vb] {
+					vrt.Failf("after the save the stored checkpoint of vb%d is %d, but the consumer settled only %d on this vBucket (another vBucket's position was written under its key)", vb, st, settled[vb])
+				} else if st != settled[vb] {
+					vrt.Failf("after the save the stored checkpoint of vb%d is %d, settled %d", vb, st, settled[vb])
+				}
+				sig += fmt.Sprint(st, ";")
+			}
+			// restart on the same bucket: each vBucket is requested at or below its own settled position
+			c.KillAgents()
+			nreq := len(c.Requests)
+			e2 := NewEnv(c, o)
+			e2.Stream.Open()
+			c.WaitIdle()
+			for _, r := range c.Requests[nreq:] {
+				if r.Kind == "openstream" && r.Args[2] > settled[r.Vb] {
+					vrt.Failf("restart: vb%d resumes at %d, beyond its settled position %d (delivered-but-unacknowledged events are skipped)", r.Vb, r.Args[2], settled[r.Vb])
+				}
+			}
+			vrt.SetOutcome(sig)
+		}}
+	}
+}
+
+// c01_finite_end: finite mode. The server ends every stream cleanly at the sampled high seqno while the
+// consumer still withholds acknowledgements (it batches); then a save, then the process exits. The stored
+// checkpoint names what was acknowledged, and the next run delivers the withheld events again.
+func init() {
+	scenarios["c01_finite_end"] = func(raw json.RawMessage) *vrt.Scenario {
+		return &vrt.Scenario{Name: "c01_finite_end", FreeChoices: true, NoTimerAlt: true, MaxSteps: 200000, Main: func() {
+			resetGlobals()
+			o := EnvOpts{Vbs: 2, CheckpointType: "manual", Mode: config.DcpModeFinite, WrapMeta: true}
+			c := NewCluster(&o)
+			c.Append(0, marker(1, 2), mut(1, "a1"), mut(2, "a2"), marker(3, 4), mut(3, "a3"), mut(4, "a4"))
+			c.Append(1, marker(1, 1), mut(1, "b1"))
+			e := NewEnv(c, o)
+			e.Stream.Open()
+			c.WaitIdle()
+			vrt.Quiesce()
+			acked := uint64(vrt.Choose(5, true, "acknowledged-prefix-of-vb0"))
+			ackVb1 := vrt.Choose(2, true, "vb1-acknowledged") == 1
+			for _, d := range e.Cons.Events {
+				if (d.Vb == 0 && d.Seq <= acked) || (d.Vb == 1 && ackVb1) {
+					d.Ctx.Ack()
+					d.Acked = true
+				}
+			}
+			e.Stream.Save()
+			c.WaitIdle()
+			desc := fmt.Sprintf("finite mode, all streams ended cleanly, vb0 acknowledged up to %d of 4, vb1 acknowledged=%v", acked, ackVb1)
+			if st, _ := e.StoredSeq(0); st != acked {
+				vrt.Failf("%s: the save stored %d for vb0", desc, st)
+			}
+			if st, _ := e.StoredSeq(1); (st == 1) != ackVb1 {
+				vrt.Failf("%s: the save stored %d for vb1", desc, st)
+			}
+			c.KillAgents()
+			e.Cons.Disabled = true
+			e2 := NewEnv(c, o)
+			e2.Stream.Open()
+			c.WaitIdle()
+			vrt.Quiesce()
+			var got []uint64
+			for _, d := range e2.Cons.Events {
+				if d.Vb == 0 {
+					got = append(got, d.Seq)
+				}
+			}
+			var want []uint64
+			for s := acked + 1; s <= 4; s++ {
+				want = append(want, s)
+			}
+			if fmt.Sprint(got) != fmt.Sprint(want) {
+				vrt.Failf("%s: the next run delivered %v of vb0, the withheld events are %v", desc, got, want)
+			}
+			vrt.SetOutcome(desc)
 		}}
 	}
 }
